@@ -147,7 +147,13 @@ Definition sched_step_nolock (c : conf) (i : nat) : conf :=
 Definition sched_nolock (c : conf) (is : list nat) : conf := fold_left sched_step_nolock is c.
 
 (* ---------- sequential histories and batches of concurrent calls alternate ---------- *)
-Inductive phase := PSeq (h : list op) | PConc (calls : list ccall) (is : list nat).
+(* PSeq: operations one after the other, completed or interrupted (store reopened);
+   PConc: a batch of concurrent calls under schedule [is]; PConcCrash: the same, the process
+   dies after the schedule's last step and the store is reopened *)
+Inductive phase :=
+| PSeq (h : list hop)
+| PConc (calls : list ccall) (is : list nat)
+| PConcCrash (calls : list ccall) (is : list nat).
 
 (* the store when every concurrent call has returned *)
 Definition st_of (c : conf) : st := mkSt (cfs c) (ctags c) (cdigs c) (ccnt c).
@@ -156,18 +162,19 @@ Definition quietb (c : conf) : bool :=
 
 Definition run_phase (inplace unlink_first : bool) (s : st) (p : phase) : st :=
   match p with
-  | PSeq h => run H shuffle inplace unlink_first true h s
+  | PSeq h => runc H shuffle inplace unlink_first true h s
   | PConc calls is => st_of (sched (start s calls) is)
+  | PConcCrash calls is => let c := sched (start s calls) is in reopen (cfs c) (S (ccnt c))
   end.
 Definition run_phases (inplace unlink_first : bool) (s : st) (ps : list phase) : st :=
   fold_left (run_phase inplace unlink_first) ps s.
 
-(* every batch of the history ran until all its calls had returned *)
+(* every batch of the history that was not killed ran until all its calls had returned *)
 Fixpoint phases_quiet (inplace unlink_first : bool) (s : st) (ps : list phase) : bool :=
   match ps with
   | [] => true
   | p :: r =>
-      match p with PConc calls is => quietb (sched (start s calls) is) | PSeq _ => true end &&
+      match p with PConc calls is => quietb (sched (start s calls) is) | _ => true end &&
       phases_quiet inplace unlink_first (run_phase inplace unlink_first s p) r
   end.
 
